@@ -30,15 +30,17 @@ func New() *Iterator {
 
 // Finish is called be the storage to signal the end of the query results.
 func (it *Iterator) Finish(err error) {
+	// Store the error before closing Next: a consumer that sees the end of the
+	// result stream must be able to read the error with Err() right away.
+	it.errLock.Lock()
+	it.err = err
+	it.errLock.Unlock()
+
 	close(it.Next)
 	if it.doneClosed.SetToIf(false, true) {
 		close(it.Done)
 	}
 	vhook.At("db.iter.finish")
-
-	it.errLock.Lock()
-	defer it.errLock.Unlock()
-	it.err = err
 }
 
 // Cancel is called by the iteration consumer to cancel the running query.
